@@ -331,6 +331,7 @@ structure Pres (P : Params) (act : Bool) (I : S → Prop) : Prop where
   calls      : ∀ (s : S) l, I s → I { s with calls := l }
   strict     : ∀ (s : S) c b, (b = true → act = true) → I s → I { s with strict := updF s.strict c b }
   mutate     : ∀ (s : S) k k', act = true → I s → I (mutateS s k k')
+  reset      : ∀ (s : S) n cs, I s → I (resetNode s n cs)
   clear      : ∀ (s : S) scope, I s → I (rtClear P s scope)
   cache      : ∀ (s : S) c (p : Nat → List (List Val)), I s → I { s with cached := c, pending := p }
 
@@ -704,6 +705,37 @@ theorem completeRun_pres (fuel : Nat) (s : S) (n : Nat) (h : I s) : I (completeR
   · exact finishRun_pres hp fuel _ n _ (pres_aux hp s _ _ _ _ _ h)
   · exact h
 
+theorem softCopy_pres (fuel : Nat) (src st : S) (cs : List Nat) (h : I st) : I (softCopy P fuel src st cs) := by
+  induction cs generalizing st with
+  | nil => exact h
+  | cons c r ih =>
+    unfold softCopy
+    split
+    · exact ih st h
+    · exact ih _ (hp.vals fuel st c _ h)
+
+theorem pushSoft_pres (fuel : Nat) (st : S) (a b : Nat) (h : I st) : I (pushSoft P fuel st a b) := by
+  unfold pushSoft
+  split
+  · exact h
+  · rename_i hk
+    refine hp.vals fuel _ b _ (hp.recv st a (some b) ?_ h)
+    intro x hx; cases hx; exact Decidable.not_not.mp hk
+
+theorem pushAll_pres (fuel : Nat) (l : List (Nat × Nat)) (st : S) (h : I st) :
+    I (l.foldl (fun st p => pushSoft P fuel st p.1 p.2) st) := by
+  induction l generalizing st with
+  | nil => exact h
+  | cons p l ih => exact ih _ (pushSoft_pres hp fuel st p.1 p.2 h)
+
+theorem replaceNode_pres (fuel : Nat) (s : S) (n : Nat) (pins pouts : List Nat) (h : I s) :
+    I (replaceNode P fuel s n pins pouts).1 := by
+  unfold replaceNode
+  simp only
+  split
+  · exact pushAll_pres hp fuel _ _ (softCopy_pres hp fuel s _ _ (hp.reset s n _ h))
+  · exact h
+
 theorem step_pres (fuel : Nat) (s : S) (op : Op) (hop : act = true ∨ op.noActivate) (h : I s) :
     I (step P fuel s op).1 := by
   cases op with
@@ -719,6 +751,7 @@ theorem step_pres (fuel : Nat) (s : S) (op : Op) (hop : act = true ∨ op.noActi
   | run n kw => exact runAny_pres hp fuel fuel s n kw h
   | submit n kw => exact submitRun_pres hp fuel s n kw h
   | complete n => exact completeRun_pres hp fuel s n h
+  | replace n pins pouts => simp only [step, wrap_fst]; exact replaceNode_pres hp fuel s n pins pouts h
   | mutate k k' =>
     refine hp.mutate s k k' ?_ h
     rcases hop with ha | hn
@@ -777,6 +810,13 @@ theorem good_pres (P : Params) (hcopy : CopyOk P) : Pres P false (Good P) where
   calls s l h := h
   cache s c p h := h
   mutate s k k' ha h := by cases ha
+  reset s n cs h := by
+    intro c hs hh
+    simp only [resetNode, replStrict] at hs ⊢
+    by_cases hc : c ∈ cs
+    · simp [hc]
+    · simp only [hc, if_false] at hs ⊢
+      exact h c hs hh
   strict s c b hb h := by
     intro x hs hh
     by_cases hx : x = c
@@ -855,6 +895,22 @@ theorem wf_pres (P : Params) : Pres P true (WF P) where
   strict s c b _ h := h.of_same rfl rfl rfl rfl rfl
   cache s c p h := h.of_same rfl rfl rfl rfl rfl
   mutate s k k' _ h := h.of_same rfl rfl rfl rfl rfl
+  reset s n cs h := by
+    refine ⟨inv_congr (g := toG P s) rfl rfl h.conn, h.sorted, h.stamped, ?_⟩
+    intro a r hra
+    simp only [resetNode] at hra
+    by_cases ha : a ∈ cs
+    · simp [ha] at hra
+    · simp only [ha, if_false] at hra
+      cases hr : s.recv a with
+      | none => simp [hr] at hra
+      | some r' =>
+        simp only [hr] at hra
+        by_cases hr' : r' ∈ cs
+        · simp [hr'] at hra
+        · simp only [hr', if_false, Option.some.injEq] at hra
+          subst hra
+          exact h.recv a r' hr
 
 theorem init_good (P : Params) (kind owner hinted strict ins outs) :
     Good P (init kind owner hinted strict ins outs) := by
@@ -2251,5 +2307,79 @@ theorem admission_pending (P : Params) (fuel : Nat) (s : S) (n : Nat) (kw : List
     simp only at hm
     have h12 : s2.pending = s.pending := by rw [hm]; exact hs
     rcases h with ⟨_, h⟩ | ⟨_, _, _, h⟩ | ⟨_, _, h⟩ <;> rw [h] <;> exact h12
+
+
+/-! ## replacing a node -/
+
+theorem setVal_ghost (P : Params) (fuel : Nat) (s : S) (c : Nat) (v : Val) :
+    (setVal P fuel s c v).1.conns = s.conns ∧ (setVal P fuel s c v).1.since = s.since ∧
+    (setVal P fuel s c v).1.clock = s.clock ∧ (setVal P fuel s c v).1.recv = s.recv := ⟨rfl, rfl, rfl, rfl⟩
+
+theorem softCopy_ghost (P : Params) (fuel : Nat) (src st : S) (cs : List Nat) :
+    (softCopy P fuel src st cs).conns = st.conns ∧ (softCopy P fuel src st cs).since = st.since ∧
+    (softCopy P fuel src st cs).clock = st.clock ∧ (softCopy P fuel src st cs).recv = st.recv := by
+  induction cs generalizing st with
+  | nil => exact ⟨rfl, rfl, rfl, rfl⟩
+  | cons c r ih =>
+    unfold softCopy
+    split
+    · exact ih st
+    · exact ih _
+
+theorem pushSoft_ghost (P : Params) (fuel : Nat) (st : S) (a b : Nat) :
+    (pushSoft P fuel st a b).conns = st.conns ∧ (pushSoft P fuel st a b).since = st.since ∧
+    (pushSoft P fuel st a b).clock = st.clock := by
+  unfold pushSoft
+  split <;> exact ⟨rfl, rfl, rfl⟩
+
+theorem pushAll_ghost (P : Params) (fuel : Nat) (l : List (Nat × Nat)) (st : S) :
+    (l.foldl (fun st p => pushSoft P fuel st p.1 p.2) st).conns = st.conns ∧
+    (l.foldl (fun st p => pushSoft P fuel st p.1 p.2) st).since = st.since ∧
+    (l.foldl (fun st p => pushSoft P fuel st p.1 p.2) st).clock = st.clock := by
+  induction l generalizing st with
+  | nil => exact ⟨rfl, rfl, rfl⟩
+  | cons p l ih =>
+    obtain ⟨a, b, c⟩ := ih (pushSoft P fuel st p.1 p.2)
+    obtain ⟨a', b', c'⟩ := pushSoft_ghost P fuel st p.1 p.2
+    exact ⟨a.trans a', b.trans b', c.trans c'⟩
+
+/-- the soft copy writes only into the channels it is given, as long as none of them forwards -/
+theorem softCopy_val_other (P : Params) (fuel : Nat) (src st : S) (cs : List Nat)
+    (hr : ∀ c ∈ cs, st.recv c = none) (x : Nat) (hx : x ∉ cs) :
+    (softCopy P (fuel + 1) src st cs).val x = st.val x := by
+  induction cs generalizing st with
+  | nil => rfl
+  | cons c r ih =>
+    unfold softCopy
+    have hxc : x ≠ c := fun e => hx (e ▸ (by simp))
+    have hxr : x ∉ r := fun h => hx (List.mem_cons_of_mem _ h)
+    split
+    · exact ih st (fun d hd => hr d (List.mem_cons_of_mem _ hd)) hxr
+    · have hrec : ∀ d ∈ r, (setVal P (fuel + 1) st c (src.val c)).1.recv d = none :=
+        fun d hd => hr d (List.mem_cons_of_mem _ hd)
+      rw [ih (setVal P (fuel + 1) st c (src.val c)).1 hrec hxr]
+      rw [setVal_norecv P fuel st c _ (hr c (by simp))]
+      split
+      · rfl
+      · split
+        · rfl
+        · simp [updF, hxc]
+
+
+theorem outLinks_nil (s : S) (n : Nat) : outLinks s n [] = [] := by
+  unfold outLinks
+  apply List.filterMap_eq_nil_iff.mpr
+  intro c _
+  cases s.recv c <;> simp
+
+/-- a child of a workflow: no value links to re-forge -/
+theorem replaceNode_top (P : Params) (fuel : Nat) (s : S) (n : Nat) :
+    replaceNode P fuel s n [] [] =
+      if replValid P s (s.ins n ++ s.outs n) then
+        (softCopy P fuel s (resetNode s n (s.ins n ++ s.outs n)) (s.ins n ++ s.outs n), none)
+      else (s, some .replace) := by
+  unfold replaceNode
+  simp only [outLinks_nil, inLinks, List.filterMap_nil, List.nil_append, List.all_nil, Bool.and_true,
+    List.foldl_nil]
 
 end PwVerif.Data
